@@ -19,13 +19,21 @@ LEVEL = "model_checking"
 CFG = render.cfg_with()
 
 
+def close_f(a, b):
+    try:
+        a, b = float(a), float(b)
+    except Exception:
+        return False
+    return abs(a - b) <= 1e-9 * max(1.0, abs(a), abs(b))
+
+
 def cls(kind, feat):
     return "%s|%s|%s|%s" % (kind, feat.get("form"), feat.get("lang"), feat.get("variant", "")[:14])
 
 
-def word_arith(toks, lang, salt):
+def word_arith(toks, lang, salt, case=None):
     """token list -> text with binary operators spelled as the language's operator words; None when the language has no word
-    for one of them"""
+    for one of them (case: "title" / "upper" spelling of the words; None when a word has no such spelling)"""
     ow = render.operator_words(lang)
     texts = render.arith_token_texts(toks, ",", ".")
     out = []
@@ -35,7 +43,15 @@ def word_arith(toks, lang, salt):
             ws = ow.get(t["c"])
             if not ws:
                 return None
-            out.append(ws[(salt + i) % len(ws)])
+            w = ws[(salt + i) % len(ws)]
+            if case:
+                if case == "title" and w[:1].upper() != w[:1] and len(w[:1].upper()) == 1:
+                    w = w[:1].upper() + w[1:]         # also for non-ASCII initials (Çarpı): the relabelling has to carry them
+                elif case == "upper" and render.word_case(w, "upper") != w:
+                    w = render.word_case(w, "upper")
+                else:
+                    return None
+            out.append(w)
             used = True
         else:
             out.append(texts[i])
@@ -95,6 +111,23 @@ def run(rep):
                           "feat": {"form": "arith"}, "class_fn": cls, "nontrivial": True})
     if not any(l != "en" for l, _ in seen_ops):
         raise ToolError("no operator-word case outside English")
+    # operator words in another letter case: whatever English does with `5 Times 3`, every language does with its own words
+    # (compared between the languages, not with an absolute expectation: the statement is the relabelling)
+    case_groups = []
+    for gi, c in enumerate(trees if len(trees) <= per else rng.sample(trees, per)):
+        case = ("title", "upper")[gi % 2]
+        texts = {lang: word_arith(c["min"], lang, gi, case) for lang in langs}
+        if texts.get("en") is None or sum(t is not None for t in texts.values()) < 2:
+            continue
+        grp = []
+        for lang in langs:
+            if texts[lang] is not None:
+                grp.append(len(items))
+                items.append({"line": {"form": "arith", "toks": c["min"]}, "text": texts[lang], "cfg": CFG, "lang": lang, "expected": {"k": "unspec"},
+                              "variant": "opwords." + case, "feat": {"form": "arith"}, "class_fn": cls, "nontrivial": lang != "en"})
+        case_groups.append(grp)
+    if len(case_groups) < 20:
+        raise ToolError("vacuous: operator words in another letter case")
     # word-free forms under every language tag
     wordfree = []
     for c in (trees if len(trees) <= per else rng.sample(trees, per)):
@@ -144,9 +177,18 @@ def run(rep):
             it = items[grp[0]]
             rep.violation({"check": "replay", "form": it["line"]["form"], "text": it["text"], "cfg": it["cfg"], "outputs": outs,
                            "feat": {"form": it["line"]["form"], "failure": "output_differs_across_languages"}, "class": "output_differs|%s" % it["line"]["form"]})
+    for grp in case_groups:
+        vals = [(items[i]["lang"], items[i]["text"], (res[i][0] or {}).get("k"), (res[i][0] or {}).get("f")) for i in grp]
+        en = [v for v in vals if v[0] == "en"][0]
+        for v in vals:
+            same = v[2] == en[2] and (v[3] == en[3] or (v[3] is not None and en[3] is not None and close_f(v[3], en[3])))
+            if not same:
+                rep.violation({"check": "replay", "form": "arith", "text": v[1], "lang": v[0], "cfg": CFG, "english": en, "observed": v,
+                               "feat": {"form": "arith", "failure": "operator_word_case_differs_from_english", "lang": v[0]},
+                               "class": "operator_word_case|%s|%s" % (v[0], items[grp[0]]["variant"])})
     # impl -> spec
     titems = []
-    cand = [it for it in items if not ("q" in it["expected"] and it["expected"]["q"][1] > 10 ** 5)]
+    cand = [it for it in items if not ("q" in it["expected"] and it["expected"]["q"][1] > 10 ** 5) and it["expected"]["k"] != "unspec"]
     for it in rng.sample(cand, min(len(cand), 2000 if quick else 30000)):
         titems.append({k: v for k, v in it.items() if k != "expected"})
     forms.trace(rep, titems, "c19.rand")
